@@ -29,6 +29,8 @@ type Sched struct {
 	SwitchDen int
 	// Coarse: yield only at harness step boundaries and I/O seams (race build), not inside
 	// allocator calls, whose sequence depends on sync.Pool's random drops under -race.
+	// StmtDen is SwitchDen for statement-level yield points (fine-grained build).
+	StmtDen  int
 	Coarse   bool
 	wg       sync.WaitGroup
 	switchAt [8]int64
@@ -54,11 +56,12 @@ const (
 	YWrite
 	YMalloc
 	YFree
+	YStmt // before a statement of the library (fine-grained build only)
 )
 
 // NewSched creates a scheduler for the run c.
 func NewSched(c *Ctx) *Sched {
-	s := &Sched{c: c, st: c.Tape.S("sched"), cur: -1, SwitchDen: 4}
+	s := &Sched{c: c, st: c.Tape.S("sched"), cur: -1, SwitchDen: 4, StmtDen: 32}
 	c.Sched = s
 	return s
 }
@@ -130,8 +133,13 @@ func (s *Sched) runnable(except int) (ids []int) {
 
 //go:norace
 func (s *Sched) waitFor(me int) {
-	for s.cur != me {
+	for n := 0; s.cur != me; n++ {
 		runtime.Gosched()
+		if n > 200_000_000 {
+			// the released task never comes back: it is blocked on a real lock held by a parked
+			// task (the library has none today) - a harness limit, not a verdict
+			panic("scheduler stalled: the released task blocks on something a parked task holds")
+		}
 	}
 }
 
@@ -164,12 +172,16 @@ func (s *Sched) Yield(me int, point int) {
 		return
 	}
 	// value 0 (and most values) = keep running
-	v := s.st.Choose(len(others) * s.SwitchDen)
-	if v < len(others)*(s.SwitchDen-1) {
+	den := s.SwitchDen
+	if point == YStmt {
+		den = s.StmtDen
+	}
+	v := s.st.Choose(len(others) * den)
+	if v < len(others)*(den-1) {
 		s.sig = (s.sig ^ uint64(me+1)) * 0x100000001b3
 		return
 	}
-	next := others[v-len(others)*(s.SwitchDen-1)]
+	next := others[v-len(others)*(den-1)]
 	s.Switch++
 	s.switchAt[point&7]++
 	s.sig = (s.sig ^ uint64(next+1) ^ uint64(point+1)<<8) * 0x100000001b3
@@ -254,7 +266,7 @@ func (s *Sched) Run() *Violation {
 	s.c.Ev(uint64(s.sig), uint64(s.Switch))
 	s.c.CountN("sched.switches", s.Switch)
 	s.c.CountN("sched.yields", s.steps)
-	for i, name := range []string{"step", "source_read", "sink_write", "malloc", "free"} {
+	for i, name := range []string{"step", "source_read", "sink_write", "malloc", "free", "statement"} {
 		if s.switchAt[i] > 0 {
 			s.c.CountN("probe.switch_at_"+name, s.switchAt[i])
 		}
